@@ -449,8 +449,9 @@ OkOnlyWithoutRedefinition == (IsDone /\ result[1] = "ok") => ExpectedRedef(aig) 
 Consecutive == (IsDone /\ result[1] = "ok") => ConsecutiveOf(aig, result[2], litMap, lastCode)
 Ordered     == OrderedOf(aig, gates)
 Equivalent  == (IsDone /\ result[1] = "ok") => EquivalentOf(aig, result[2], litMap)
-\* the literal map is sound after every step, not only at the end
-MapSound    == (st[1] # "Idle" /\ result[1] \in {"none", "ok"}) =>
+\* the literal map is sound all along, not only at the end (the map changes in Begin and in the
+\* Input1 arms only, and those lead to a Return state: the other states need no re-evaluation)
+MapSound    == ((st[1] = "Return" \/ (st[1] # "Idle" /\ steps = 0)) /\ result[1] \in {"none", "ok"}) =>
                  (OrderedOf(aig, gates) /\ MapSoundOf(aig, OrigTab(aig), NewTab(aig, gates), litMap))
 \* no `unwrap()` of renumber_aig can fail
 NoUnwrapPanic ==
